@@ -232,7 +232,7 @@ func c19Run(r *Run, c *Case, k c19Case, tag string) {
     export BINDING_CONTEXT_CURRENT_INDEX="${i}"
     export BINDING_CONTEXT_CURRENT_BINDING=$(context::jq -r '.binding // "unknown"')
     out=$(hook::_get_possible_handler_names)
-    echo "cands=$(echo ${out:--} | tr ' ' ',')"
+    printf 'cands=%s\n' "$(tr '\n' ',' <<< "${out:--}" | sed 's/,$//')"
   done
   exit 0
 fi
@@ -299,8 +299,8 @@ hook::run "$@"
 		if i < len(cands) {
 			a = cands[i]
 		}
-		if a == "abort" {
-			wellFormed = false
+		if x.typ == "Group" && x.group == "" && x.binding != "onStartup" {
+			wellFormed = false // the excluded point of candidates_spec: no oracle line, correspondence only
 		}
 		c.Op(x.line(), a)
 		c.Note("kind:" + x.kind)
@@ -403,7 +403,7 @@ func uniqSorted(xs []string) []string {
 
 func runC19(r *Run) {
 	r.Rule = "real bash runs of generated hook scripts that source the repository's shell_lib.sh + frameworks/shell/*.sh: (1) exhaustive single-context cases = every context kind (onStartup, Synchronization, Event Added/Modified/Deleted, Group, Schedule, Validating, Mutating, Conversion) x every subset of its documented candidates + __main__ (76 cases); (2) random arrays of 0..6 contexts of every kind incl. odd shapes (unknown type, no type, no binding, unknown watchEvent, onStartup with a type), random subsets of candidate functions plus decoy functions of other bindings/kinds, failures scripted by context index or handler name ending with return 3 / exit 2 / `false` under set -e, args none / --config / other; thorough adds all ordered pairs of kinds x {all specific handlers, only __main__, nothing for the first, nothing for the second} x failure at {none, first, second}. Observation: (index, handler, context read through context::jq) per invocation in order, config marker on stdout, exit status; plus the output of hook::_get_possible_handler_names per context. Non-trivial: at least one context and not --config; distinct = distinct op-line sequences."
-	bindings := []string{"pods", "monitor-pods", "cfg.v1", "kubernetes", "schedule", "a_b", "main"}
+	bindings := []string{"pods", "monitor-pods", "cfg.v1", "kubernetes", "schedule", "a_b", "main", "every*min", "x[1]", "what?"}
 	groups := []string{"g1", "grp-a", "pods"}
 
 	// corpus
@@ -418,6 +418,12 @@ func runC19(r *Run) {
 		c.Nontrivial = true
 		c19Run(r, c, c19Case{ctxs: []c19Ctx{c19Make("schedule", "cron", ""), {kind: "group-noname", binding: "pods", typ: "Group"}, c19Make("schedule", "cron", "")},
 			defined: []string{"__main__"}, failMode: "return3"}, "a")
+	})
+	r.One(3, func(c *Case, _ *Rng) {
+		c.Desc = "corpus: binding names with pathname-expansion characters (*, ?, [) are plain names"
+		c.Nontrivial = true
+		c19Run(r, c, c19Case{ctxs: []c19Ctx{c19Make("schedule", "every*min", ""), c19Make("added", "x[1]", ""), c19Make("group", "pods", "g?")},
+			defined: []string{"__main__", "__on_kubernetes::x[1]::added_or_modified"}, failMode: "return3"}, "a")
 	})
 	r.One(2, func(c *Case, _ *Rng) {
 		c.Desc = "corpus: empty context array, and `x --config` (not the first argument)"
